@@ -160,6 +160,19 @@ func genC05(o *hx.Out, tier string) {
 		for _, cs := range segs {
 			emit("structured no-fault", cs, withD)
 		}
+		// the same stream through a keyed reader (v1, unsigned and wrongly signed frames are parse
+		// errors that must still consume the whole frame)
+		{
+			dn := "-"
+			var rw *dialect.ReadWriter
+			if withD {
+				dn = "minimal"
+				rw = drw
+			}
+			for _, cs := range [][]hx.Chunk{one(all), splitRandom(r, all)} {
+				o.Add("structured keyed reader", readAllC(cs, rw, key), "freadc", dn, hx.Hex(key[:]), hx.ChunksText(cs))
+			}
+		}
 		// a transport error at every byte offset (quick: sampled offsets for long streams)
 		step := 1
 		if tier != "thorough" && len(all) > 60 {
